@@ -13,9 +13,10 @@ type collector struct {
 	partCount int
 	createdAt time.Time
 
-	mu     sync.Mutex
-	bitMap bitMap
-	buf    []byte
+	mu      sync.Mutex
+	bitMap  bitMap
+	buf     []byte
+	claimed bool
 }
 
 func newCollector(partCount, totalSize int, now time.Time) *collector {
@@ -54,6 +55,17 @@ func (c *collector) isComplete() bool {
 	c.mu.Lock()
 	defer c.mu.Unlock()
 	return c.bitMap.allSet()
+}
+
+// claim returns true exactly once: for the first caller after the collector became complete.
+func (c *collector) claim() bool {
+	c.mu.Lock()
+	defer c.mu.Unlock()
+	if c.claimed || !c.bitMap.allSet() {
+		return false
+	}
+	c.claimed = true
+	return true
 }
 
 func (c *collector) withBuffer(fn func([]byte) error) error {
@@ -95,7 +107,8 @@ func (fl *fragLayer) handlePart(remote p2p.Addr, gid GroupID, partIndex, partCou
 		return err
 	}
 	col.addPart(int(partIndex), body)
-	if !col.isComplete() {
+	// only one of the workers which see the collector complete gets to handle the message.
+	if !col.claim() {
 		return nil
 	}
 	defer fl.dropCollector(cid)
